@@ -11,10 +11,17 @@ for l in open('/verif/properties.jsonl'):
         p = q
 wt = "/tmp/wt_%s%s" % (pid, rnd)
 extra = ""
+import os
+used = {}
+if os.path.exists('/tmp/used_topics.json'):
+    used = json.load(open('/tmp/used_topics.json'))
 if rnd:
     extra = ("\nAn earlier round already produced changes for this property; to be useful yours must be DIFFERENT in kind: "
              "prefer other files and mechanisms listed in the anchors than the obvious ones, feature-gated code paths, "
              "rarely used API entry points, and pairs of sites that must agree with each other.\n")
+    if used.get(pid):
+        extra += ("Changes ALREADY produced for this property (do not repeat these or close variants of them):\n" +
+                  "".join("  - %s\n" % u for u in used[pid]))
 print(f"""You are helping evaluate a verification effort for the Rust crate workspace pest (a PEG parser generator).
 Your own scratch git worktree of the repository is at {wt} (a detached checkout; it builds offline with
 `cargo build --offline`). Work ONLY inside {wt}. Do not read or write /repo or /verif, and do not use the network.
